@@ -1044,7 +1044,39 @@ class FD:
                 kwargs = {k.arg: self.eval(k.value, env) for k in e.keywords}
                 kwargs.update(star_kwargs)
                 return f(*[self.eval(a, env) for a in e.args], **kwargs)
+        if name in ('isinstance', 'issubclass') and len(e.args) == 2 and not e.keywords:
+            return self._default_isinstance(name, self.eval(e.args[0], env), self.eval(e.args[1], env))
         raise Inconclusive('fdeval: call of %s' % (name or ast.unparse(e.func)))
+
+    def _default_isinstance(self, name, o, t):
+        """isinstance / issubclass where the harness models neither: decided for concrete values against builtin types
+        and for instances of pedal classes against pedal classes; anything else is outside the fragment."""
+        ts = t if isinstance(t, tuple) else (t,)
+        py = tuple(x for x in ts if isinstance(x, type))
+        pedal = [x for x in ts if isinstance(getattr(x, '_fd_class', None), ast.ClassDef)]
+        if len(py) + len(pedal) != len(ts):
+            raise Inconclusive('fdeval: %s against %r' % (name, t))
+        if name == 'issubclass':
+            if isinstance(o, type):
+                return bool(py) and issubclass(o, py)
+            raise Inconclusive('fdeval: issubclass of %r' % (o,))
+        if o is UNKNOWN or isinstance(o, Opaque) or o is ERR:
+            raise Inconclusive('fdeval: isinstance of a non-concrete value')
+        if isinstance(o, Obj):
+            cd = o.attrs.get('__classdef__')
+            if cd is None or self.sym is None or getattr(cd, '_module', None) is None:
+                raise Inconclusive('fdeval: isinstance of a model object of no known class')
+            ci = self.sym.classes.get((cd._module.name, getattr(cd, '_qualname', cd.name)))
+            if ci is None:
+                raise Inconclusive('fdeval: isinstance of a model object of no known class')
+            mro = list(self.sym.mro(ci))
+            if any(getattr(k, 'node', None) is x._fd_class for k in mro for x in pedal):
+                return True
+            if py and not all(getattr(k, 'node', None) is not None for k in mro):
+                # a builtin ancestor (dict, Exception, ...): not followed
+                raise Inconclusive('fdeval: isinstance of a pedal object against builtin types')
+            return object in py
+        return bool(py) and isinstance(o, py)
 
     def call_function(self, fn, args, kwargs=None, bound_self=None, closure_env=None):
         params = [a.arg for a in fn.args.args]
@@ -1145,6 +1177,11 @@ class FD:
                 chain = [k.node for k in self.sym.mro(ci) if hasattr(k, 'node')]   # inherited class attributes
         for cd, st in [(c, st_) for c in chain for st_ in c.body]:
             if isinstance(st, ast.Assign) and any(isinstance(t, ast.Name) and t.id == attr for t in st.targets):
+                # (a class body runs once: the value of a class-level assignment is one object for the process this
+                #  interpreter models, shared by every instance)
+                values = self.__dict__.setdefault('_class_values', {})
+                if (id(cd), attr) in values:
+                    return values[(id(cd), attr)]
                 self._mods.append(getattr(cd, '_module', None) or (self._mods[-1] if self._mods else None))
                 try:
                     # the class body is a scope of its own: names bound by earlier class-level assignments
@@ -1160,7 +1197,8 @@ class FD:
                                 scope[earlier.targets[0].id] = self.eval(earlier.value, dict(scope))
                             except (Inconclusive, Raised):
                                 pass
-                    return self.eval(st.value, scope)
+                    values[(id(cd), attr)] = self.eval(st.value, scope)
+                    return values[(id(cd), attr)]
                 except Inconclusive:
                     # a class-level object the interpreter cannot build (`_ORIGINAL_STDOUT = sys.stdout`): an opaque
                     # value distinct from everything else, one per class attribute
